@@ -2,7 +2,7 @@
    Model: Model/BodyQueries.v (symbolsForBody, nestedSymbolsForExpr, symbolExprKind, workspace query),
    compared with SymbolsInFile on every run. *)
 From Coq Require Import String List ZArith Bool Sorted Permutation.
-From HV Require Import Base.SortSpec Model.Schema Model.Ast Model.BodyQueries Proofs.BodyQueriesProofs.
+From HV Require Import Base.Pos Base.SortSpec Model.Schema Model.Ast Model.BodyQueries Proofs.BodyQueriesProofs Proofs.SymbolNesting.
 
 (* the symbols of a body correspond one-to-one to the attributes and blocks written in it ... *)
 Theorem C14_symbols_one_to_one : forall bs b, Permutation (body_items bs b) (symbols_body bs b).
@@ -31,3 +31,13 @@ Theorem C14_empty_query_returns_all : forall paths,
   flat_map (fun p : bool * list (string * list symbol) => if fst p then flat_map (fun f : string * list symbol => snd f) (snd p) else nil) paths.
 Proof. exact empty_query_returns_all. Qed.
 Print Assumptions C14_empty_query_returns_all.
+
+(* every child's range lies inside its parent's, at any depth (nested blocks, attributes, elements of
+   list literals, items of object literals) - for every tree in which the parser's ranges nest
+   (sub-expressions inside their expression, an object item's key before its value, an attribute's
+   value inside the attribute, attributes and blocks inside the enclosing block) *)
+Theorem C14_children_inside_parents : forall b bs outer,
+  wf_body outer b ->
+  Forall (fun s => match outer with Some o => inside (sym_rng s) o | None => True end /\ all_inside s) (symbols_body bs b).
+Proof. exact symbols_nest. Qed.
+Print Assumptions C14_children_inside_parents.
